@@ -31,9 +31,9 @@ def pool():
     }
 
 
-ATTRS = {0: None, 1: {'stroke': 'red', 'class': 'c1'}, 2: {'fill': 'none', 'stroke-width': '2', 'stroke': '#00ff00'},
+ATTRS = {0: None, 1: {'stroke': 'red', 'class': 'c1', 'font-family': "'DejaVu  Sans',  serif"}, 2: {'fill': 'none', 'stroke-width': '2', 'stroke': '#00ff00', 'data-label': ' x '},
          3: {'d': 'M 0,0 L 9,9', 'stroke': 'blue', 'fill': 'none'}}      # e.g. a dict read from another element: the path passed must win
-BASE = ('<svg xmlns="%s" version="1.1" width="100" height="80">\n <g id="base" style="stroke:blue;opacity:0.5">\n  <path d="M 1,1 L 5,1 L 5,4" stroke="red" class="c1"/>\n </g>\n</svg>\n' % NS)
+BASE = ('<svg xmlns="%s" version="1.1" width="100" height="80">\n <g id="base" style="stroke:blue;opacity:0.5">\n  <path d="M 1,1 L 5,1 L 5,4" stroke="red" class="c1" font-family="\'DejaVu  Sans\',  serif"/>\n </g>\n</svg>\n' % NS)
 
 
 def ident(path, P):
@@ -175,6 +175,8 @@ def wsvg_roundtrips(ck, rnd, tmp, P, n):
             if amode == 'styled':
                 svg_attributes['style'] = 'stroke:blue;fill:yellow'
             ck.case(fp=('wsvg', tuple(lst), amode), nontrivial=len(lst) >= 2)
+            import copy
+            given_attributes, given_svg = copy.deepcopy(attributes), copy.deepcopy(svg_attributes)      # what was supplied (the callee must not be trusted to leave its arguments alone)
 
             def bad(key, what, exp=None, obs=None):
                 ck.disagree(key='wsvg/' + key, site='svgpathtools/paths2svg.py:wsvg', what='%s (paths %s, attributes=%s)' % (what, lst, amode),
@@ -186,6 +188,11 @@ def wsvg_roundtrips(ck, rnd, tmp, P, n):
                 if os.path.exists(fn):
                     os.remove(fn)
                 sp.wsvg(paths, attributes=attributes, svg_attributes=svg_attributes, filename=fn, **kw)
+                if ci % 2 == 0:
+                    # the same argument objects used for a second file: it is the second one that is read back
+                    os.remove(fn)
+                    sp.wsvg(paths, attributes=attributes, svg_attributes=svg_attributes, filename=fn, **kw)
+                attributes, svg_attributes = given_attributes, given_svg
                 if not os.path.exists(fn):
                     bad('file-not-written-where-asked', 'wsvg(filename=%r) did not create that file' % fn)
                     continue
@@ -217,6 +224,41 @@ def wsvg_roundtrips(ck, rnd, tmp, P, n):
     ck.sample('wsvg', {'paths': combos[0], 'attributes': ATTRS[1], 'svg_attributes': {'width': '120', 'height': '90', 'viewBox': '0 0 120 90'}})
 
 
+def nested_transform_roundtrip(ck, tmp, P):
+    """groups with transforms that do not commute, created through Document.add_group, a path (with a transform of its own) added inside, saved, and read back by
+    Document and SaxDocument: the same geometry as transform(path, outer . inner . own)"""
+    import numpy as np
+    T = lambda a, b, c, d, e, f: np.array([[a, c, e], [b, d, f], [0, 0, 1.0]])      # noqa
+    combos = [(('translate(10,20)', T(1, 0, 0, 1, 10, 20)), ('scale(2)', T(2, 0, 0, 2, 0, 0)), (None, np.eye(3))),
+              (('scale(2,3)', T(2, 0, 0, 3, 0, 0)), ('translate(-5,1)', T(1, 0, 0, 1, -5, 1)), ('rotate(90)', T(0, 1, -1, 0, 0, 0))),
+              (('matrix(0 1 -1 0 3 4)', T(0, 1, -1, 0, 3, 4)), ('skewX(45)', T(1, 0, 1, 1, 0, 0)), ('translate(7)', T(1, 0, 0, 1, 7, 0)))]
+    for ci, ((t1, M1), (t2, M2), (t3, M3)) in enumerate(combos):
+        for k in (0, 1, 3):
+            fn = os.path.join(tmp, 'nested%d_%d.svg' % (ci, k))
+            ck.case(fp=('nested-transforms', ci, k), nontrivial=True)
+            try:
+                doc = sp.Document()
+                g1 = doc.add_group(group_attribs={'transform': t1, 'id': 'outer'})
+                g2 = doc.add_group(group_attribs={'transform': t2, 'id': 'inner'}, parent=g1)
+                doc.add_path(P[k], attribs=({'transform': t3} if t3 else None), group=g2)
+                want = sp.path.transform(P[k], M1.dot(M2).dot(M3))
+                before = doc.paths()
+                doc.save(fn)
+                got = {'Document before saving': before, 'Document(saved file)': sp.Document(fn).paths(), 'SaxDocument(saved file)': sp.SaxDocument(fn).flatten_all_paths()}
+            except Exception as e:      # noqa
+                ck.disagree(key='Document/nested-transforms/raises-' + type(e).__name__, site='svgpathtools/document.py / svg_io_sax.py', what='nested transforms %s / %s / %s raised %r' % (t1, t2, t3, e),
+                            case={'combo': ci, 'path': k}, expected='paths', observed=repr(e), driver='nested')
+                continue
+            for who, ps in got.items():
+                ok = len(ps) == 1 and len(ps[0]) == len(want) and all(type(a_) is type(b_) and abs(a_.start - b_.start) <= 1e-6 * (1 + abs(b_.start)) and abs(a_.end - b_.end) <= 1e-6 * (1 + abs(b_.end)) and
+                                                                     abs(a_.point(0.3) - b_.point(0.3)) <= 1e-6 * (1 + abs(b_.point(0.3))) for a_, b_ in zip(ps[0], want))
+                if not ok:
+                    ck.disagree(key='%s/nested-transforms' % who.split('(')[0].split(' ')[0], site='svgpathtools/document.py / svg_io_sax.py',
+                                what='%s of a path under %s > %s > %s: %r, expected %r' % (who, t1, t2, t3, ps, want), case={'combo': ci, 'path': k, 'reader': who},
+                                expected=repr(want), observed=repr(ps), driver='nested')
+                    break
+
+
 def run(ck):
     rnd = random.Random(ck.seed)
     quick = ck.tier == 'quick'
@@ -242,6 +284,7 @@ def run(ck):
             ck.tlc('SvgHist', d % depth, workers=1, coverage=False, simulate=num, depth=depth + 1, on_case=lambda c: on_case(c, 2 if quick else 1), timeout=3000)
         ck.count('histories', st['n'])
         wsvg_roundtrips(ck, rnd, tmp, P, 12 if quick else 40)
+        nested_transform_roundtrip(ck, tmp, P)
     finally:
         shutil.rmtree(tmp, ignore_errors=True)
 
